@@ -264,7 +264,9 @@ def evolve_2site(
 ):
     # evolve snode and parent
     ms2 = ttns.merge_with_parent(snode)
-    hop, _ = hop_expr2(snode, ttns, ttno, ttne)
+    # the diagonal is only a preconditioner for eigensolvers and is not defined when the state carries degrees of
+    # freedom the operator does not act on (auxiliary space)
+    hop, _ = hop_expr2(snode, ttns, ttno, ttne, return_hdiag=False)
     ms2_t, j = expm_krylov(lambda y: hop(y.reshape(ms2.shape)).ravel(), coeff * tau, ms2.ravel())
     return ms2_t, j
 
